@@ -46,6 +46,10 @@ Proof. exact sys_wire_order. Qed.
 Theorem C01_write_source_is_model : forall (stream : val) (o : outbuf) (oracle : list wr) (wire : bytes), snd (fst (fst (write_to_stream o oracle))) <> WStuck -> gen_Inner_write_to_stream ext_model ext_st_model (S (Datatypes.length oracle)) (enc_self (ob o) oracle wire) stream = (let '(ws, r, o', rest) := write_to_stream o oracle in (enc_self (ob o') rest (wire ++ ws), enc_wres r)).
 Proof. exact write_source_is_model. Qed.
 
+(* C01 AS A THEOREM ABOUT THE TRANSLATED CODE: whatever the transport does (any sequence of partial writes, would-blocks, errors), a pass of the translated write loop (Gen/SrcWrite.v) that returns Ok leaves (what has reached the wire) ++ (what is still buffered) unchanged - nothing is lost, duplicated or reordered; on an I/O error the buffer is untouched and what was written is a prefix of it *)
+Theorem C01_write_source_conserves : forall (stream : val) (o : outbuf) (oracle : list wr) (wire : bytes), snd (fst (fst (write_to_stream o oracle))) <> WStuck -> exists (ws : list N) (buf' : bytes) (rest : list wr) (r : wres), gen_Inner_write_to_stream ext_model ext_st_model (S (Datatypes.length oracle)) (enc_self (ob o) oracle wire) stream = (enc_self buf' rest (wire ++ ws), enc_wres r) /\ match r with | WOk => (wire ++ ws) ++ buf' = wire ++ ob o | WIoErr => buf' = ob o /\ (exists k : nat, ws = firstn k (ob o)) | WStuck => False end.
+Proof. exact write_source_conserves. Qed.
+
 (* non-vacuity: three buffers, a transport that takes 2 bytes, blocks, then the rest *)
 Example C01_example :
   fold_left bstep [BAppend [1; 2; 3]; BWrite [Wrote 2; WBlock]; BAppend [4]; BSeal; BAppend [9]; BWrite [Wrote 10]]
@@ -64,6 +68,7 @@ Check C01_write_interest : forall (l : loop) (outlen outlen' high low : N), loop
 Check C01_first_batch : forall (l : loop) (outlen outlen' high low : N), loop_inv l outlen -> l_have_written l = false -> l_have_written (fst (loop_tail l (negb (outlen =? 0)) outlen' high low)) = true.
 Check C01_system_wire_order : forall (answer : N -> N -> N) (bound qcap : N) (progs : N -> list call), 2 <= qcap -> forall (sched : list act) (n : N), let s := yrun answer bound qcap (init_sys progs) sched in yc_srv_closed (y_ch s n) = false -> projc n (y_seen s) ++ projc n (y_outwire s) ++ projc n (y_outbuf s) ++ yc_mail (y_ch s n) = yc_issued (y_ch s n) /\ yc_issued (y_ch s n) ++ yc_prog (y_ch s n) = progs n.
 Check C01_write_source_is_model : forall (stream : val) (o : outbuf) (oracle : list wr) (wire : bytes), snd (fst (fst (write_to_stream o oracle))) <> WStuck -> gen_Inner_write_to_stream ext_model ext_st_model (S (Datatypes.length oracle)) (enc_self (ob o) oracle wire) stream = (let '(ws, r, o', rest) := write_to_stream o oracle in (enc_self (ob o') rest (wire ++ ws), enc_wres r)).
+Check C01_write_source_conserves : forall (stream : val) (o : outbuf) (oracle : list wr) (wire : bytes), snd (fst (fst (write_to_stream o oracle))) <> WStuck -> exists (ws : list N) (buf' : bytes) (rest : list wr) (r : wres), gen_Inner_write_to_stream ext_model ext_st_model (S (Datatypes.length oracle)) (enc_self (ob o) oracle wire) stream = (enc_self buf' rest (wire ++ ws), enc_wres r) /\ match r with | WOk => (wire ++ ws) ++ buf' = wire ++ ob o | WIoErr => buf' = ob o /\ (exists k : nat, ws = firstn k (ob o)) | WStuck => False end.
 
 Print Assumptions C01_write_conserves.
 Print Assumptions C01_trace_conserves.
@@ -76,4 +81,5 @@ Print Assumptions C01_write_interest.
 Print Assumptions C01_first_batch.
 Print Assumptions C01_system_wire_order.
 Print Assumptions C01_write_source_is_model.
+Print Assumptions C01_write_source_conserves.
 Print Assumptions C01_example.
